@@ -402,17 +402,12 @@ theorem unmarshalItems_other (A : Char → Nat) (hO : AlignOK A) (le : Bool) (fd
     · simp only [hlt, if_false] at h
       cases h
 
-/-- **"Outside the fragment" means exactly that**: when the specialised header decoder answers `PyErr.other`, some
-header field's variant (at some offset of the message) has a signature that starts with a known type code and is not one
-basic type code - never an exhausted loop budget. -/
-theorem unmarshalHeader_other (A : Char → Nat) (hO : AlignOK A) (le : Bool) (data : Bytes) (fds : Option (List PyVal))
+/-- **"Outside the fragment", anchored to the field walk**: when the specialised header decoder answers `PyErr.other`, its
+own walk over the field array stands, at some offset `off`, before a variant on which the fragment's `unmarshal_variant`
+answers `other` (the walk reached it: every field before decoded, the loop budget was not exhausted). -/
+theorem unmarshalHeader_other_anchored (A : Char → Nat) (hO : AlignOK A) (le : Bool) (data : Bytes) (fds : Option (List PyVal))
     (h : unmarshalHeader A le data fds = .error .other) :
-    ∃ off nsig ch more, unmarshalSignature le (rdAt data off) = .ok (nsig, ch :: more) ∧ A ch ≠ 0 ∧
-      (more ≠ [] ∨ Basic.ofCode? ch = none) := by
-  suffices hv : ∃ off, unmarshalVariant A le (rdAt data off) fds = .error .other by
-    obtain ⟨off, hv⟩ := hv
-    obtain ⟨nsig, ch, more, h1, h2, h3⟩ := unmarshalVariant_other A le _ fds hv
-    exact ⟨off, nsig, ch, more, h1, h2, h3⟩
+    ∃ off, unmarshalVariant A le (rdAt data off) fds = .error .other := by
   unfold unmarshalHeader at h
   simp only [rdAt_zero, rdAt_skipPad, rdAt_adv, rdAt_off] at h
   have step : ∀ {α : Type} (k : Nat) (r : Rd) (g : Nat → Except PyErr α),
@@ -451,5 +446,15 @@ theorem unmarshalHeader_other (A : Char → Nat) (hO : AlignOK A) (le : Bool) (d
       subst ha
       exact unmarshalItems_other A hO le fds data _ _ _ (by simp [rdAt]) hi
   · cases h
+
+/-- The consequence in terms of the bytes (a NECESSARY condition, weaker than the anchored form): at that offset stands a
+variant signature that starts with a known type code and is not exactly one basic type code. -/
+theorem unmarshalHeader_other (A : Char → Nat) (hO : AlignOK A) (le : Bool) (data : Bytes) (fds : Option (List PyVal))
+    (h : unmarshalHeader A le data fds = .error .other) :
+    ∃ off nsig ch more, unmarshalSignature le (rdAt data off) = .ok (nsig, ch :: more) ∧ A ch ≠ 0 ∧
+      (more ≠ [] ∨ Basic.ofCode? ch = none) := by
+  obtain ⟨off, hv⟩ := unmarshalHeader_other_anchored A hO le data fds h
+  obtain ⟨nsig, ch, more, h1, h2, h3⟩ := unmarshalVariant_other A le _ fds hv
+  exact ⟨off, nsig, ch, more, h1, h2, h3⟩
 
 end Txdbus.Msg
